@@ -218,7 +218,7 @@ NSHARD = 16
 
 
 def plan(tier):
-    n = 300 if tier == 'quick' else 5000
+    n = 700 if tier == 'quick' else 5000
     return [{'kind': 'hyp', 'shard': i, 'examples': n} for i in range(NSHARD)] + [{'kind': 'many', 'shard': 100, 'sizes': [60, 99, 100, 101, 150, 300]}]
 
 
